@@ -348,10 +348,17 @@ func makePlan(r *rand.Rand, idx int, tier string, t0 int64) *plan {
 	}
 	g := newGen(r, shards, families)
 	// a family three days back: the write ahead log garbage collector removes its partitions once they are drained
+	// (quick tier: only in the histories with one shard)
 	old := t0 - 72*hourMs
-	g.old = old
-	g.slots[old] = r.Perm(slotsPerFam)
-	allFamilies := append(append([]int64(nil), families...), old)
+	allFamilies := append([]int64(nil), families...)
+	if tier == "thorough" || shards == 1 {
+		g.old = old
+		g.slots[old] = r.Perm(slotsPerFam)
+		allFamilies = append(allFamilies, old)
+	} else {
+		old = 0
+		g.oldGone = true
+	}
 	p := &plan{Shards: shards, Families: allFamilies, Old: old}
 	// cycle kinds: every history has a truly idle flush cycle (preceded by a cycle that flushes the leftovers of the
 	// cycle before) followed by a cycle with new names; busy cycles have rows arriving at file-system operations of
@@ -394,7 +401,11 @@ func makePlan(r *rand.Rand, idx int, tier string, t0 int64) *plan {
 	}
 	// setup arrivals
 	g.cycle = 0
-	add(planStep{Kind: "arrive", Cycle: -1, Actions: []action{g.appendAction(3), g.oldAction(), g.appendAction(2), g.replicate(true)}})
+	setup := []action{g.appendAction(3)}
+	if old != 0 {
+		setup = append(setup, g.oldAction())
+	}
+	add(planStep{Kind: "arrive", Cycle: -1, Actions: append(setup, g.appendAction(2), g.replicate(true))})
 	// the garbage collect task runs while the entries of the old family are consumed but not flushed
 	add(planStep{Kind: "gc", Cycle: -1})
 	for c, kind := range cycles {
